@@ -11,6 +11,8 @@ VERIF = os.path.dirname(os.path.dirname(os.path.abspath(__file__)))
 sys.path.insert(0, VERIF)
 sys.path.insert(0, os.path.join(VERIF, "lib"))
 
+OUT = os.environ.get("VERIF_OUT", VERIF)
+
 EXIT_OK, EXIT_VIOLATION, EXIT_INCONCLUSIVE = 0, 1, 2
 
 
@@ -137,8 +139,8 @@ class Check(object):
         if self.exhaustive is not None:
             ev["coverage"]["exhaustive"] = bool(self.exhaustive)
         ev["coverage"].update(self.extra)
-        os.makedirs(os.path.join(VERIF, "evidence"), exist_ok=True)
-        p = os.path.join(VERIF, "evidence", self.prop + ".json")
+        os.makedirs(os.path.join(OUT, "evidence"), exist_ok=True)
+        p = os.path.join(OUT, "evidence", self.prop + ".json")
         tmp = p + ".tmp%d" % os.getpid()
         with open(tmp, "w") as f:
             json.dump(ev, f, indent=1, default=str)
@@ -156,7 +158,7 @@ class Check(object):
         for sig, v in sorted(seen_known.items()):
             print("KNOWN-FINDING: property=%s %s [%s]" % (self.prop, known[sig].get("what", v.what), sig))
         for sig, v in sorted(new.items()):
-            d = os.path.join(VERIF, "replays", self.prop)
+            d = os.path.join(OUT, "replays", self.prop)
             os.makedirs(d, exist_ok=True)
             path = os.path.join(d, h([sig, v.witness]) + ".json")
             with open(path, "w") as f:
